@@ -71,6 +71,9 @@ pub struct Plan {
     pub cfgs: Vec<Cfg>,
     pub alpha_for: Box<dyn Fn(&Cfg) -> Alphabet + Sync>,
     pub opts: Opts,
+    /// supplementary long pseudo-random walks per configuration: (number of seeds, calls per walk).
+    /// Labelled *sampled* in the evidence; the exhaustive search above is what decides.
+    pub walk: Option<(u64, usize)>,
 }
 
 pub struct E1Summary {
@@ -96,6 +99,8 @@ pub fn run_e1<O: Observer>(property: &str, plans: Vec<Plan>, ctx: &WorkerCtx, ru
     let mut panics = 0u64;
     let mut clone_checks = 0u64;
     let mut fresh_checks = 0u64;
+    let mut walk_calls = 0u64;
+    let mut walk_engaged = 0u64;
     let only_plan: Option<usize> = std::env::var("VERIF_PLAN").ok().and_then(|s| s.parse().ok());
     for (pi, mut p) in plans.into_iter().enumerate() {
         if only_plan.is_some() && only_plan != Some(pi) {
@@ -118,11 +123,12 @@ pub fn run_e1<O: Observer>(property: &str, plans: Vec<Plan>, ctx: &WorkerCtx, ru
         clone_checks += r.clone_checks;
         fresh_checks += r.fresh_checks;
         stats.merge(&r.stats);
-        let complete = r.capped_configs == 0 && !r.wall_capped && r.violations.is_empty() && ctx.only_unit.is_none();
+        let nviol = r.violations.len();
+        let complete = r.capped_configs == 0 && !r.wall_capped && nviol == 0 && ctx.only_unit.is_none();
         if !complete {
             exhaustive = false;
         }
-        eprintln!("  plan {pi} [{}]: {} configs, {} states, {} transitions, {} violations, {:.1}s", p.name, r.configs, r.states, r.transitions, r.violations.len(), t0.elapsed().as_secs_f64());
+        eprintln!("  plan {pi} [{}]: {} configs, {} states, {} transitions, {} violations, {:.1}s", p.name, r.configs, r.states, r.transitions, nviol, t0.elapsed().as_secs_f64());
         let a0 = if p.cfgs.is_empty() { None } else { Some((p.alpha_for)(&p.cfgs[0])) };
         plan_rows.push(json!({
             "plan": p.name,
@@ -148,7 +154,54 @@ pub fn run_e1<O: Observer>(property: &str, plans: Vec<Plan>, ctx: &WorkerCtx, ru
                 samples.push(s);
             }
         }
-        for v in r.violations {
+        let mut violations = r.violations;
+        if let (Some((nseeds, steps)), true) = (p.walk, ctx.only_unit.is_none()) {
+            let next = std::sync::atomic::AtomicUsize::new(0);
+            let found: Vec<(u64, u64, Vec<Violation>)> = std::thread::scope(|sc| {
+                let hs: Vec<_> = (0..ctx.threads())
+                    .map(|_| {
+                        let (next, p) = (&next, &p);
+                        sc.spawn(move || {
+                            let (mut c, mut e, mut v) = (0u64, 0u64, vec![]);
+                            loop {
+                                let i = next.fetch_add(1, std::sync::atomic::Ordering::Relaxed);
+                                if i >= p.cfgs.len() {
+                                    break;
+                                }
+                                let alpha = (p.alpha_for)(&p.cfgs[i]);
+                                for sd in 0..nseeds {
+                                    let (a, b, viol) = random_walk::<O>(i, &p.cfgs[i], &alpha, &p.opts, ctx.seed.wrapping_mul(7919).wrapping_add(sd * 104_729 + i as u64), steps);
+                                    c += a;
+                                    e += b;
+                                    if let Some(x) = viol {
+                                        if v.len() < 3 {
+                                            v.push(x);
+                                        }
+                                        break;
+                                    }
+                                }
+                                if i % 32 == 0 {
+                                    crate::supervise::beat();
+                                }
+                            }
+                            (c, e, v)
+                        })
+                    })
+                    .collect();
+                hs.into_iter().map(|h| h.join().unwrap()).collect()
+            });
+            for (c, e, v) in found {
+                walk_calls += c;
+                walk_engaged += e;
+                for mut x in v {
+                    if violations.len() < 12 {
+                        x.kind = format!("{} (random walk)", x.kind);
+                        violations.push(x);
+                    }
+                }
+            }
+        }
+        for v in violations {
             let cfg = &p.cfgs[v.cfg_index];
             let replay = {
                 let mut j = replay_json(property, cfg, &v, &p.opts);
@@ -176,6 +229,8 @@ pub fn run_e1<O: Observer>(property: &str, plans: Vec<Plan>, ctx: &WorkerCtx, ru
         "subject_panics_skipped": panics,
         "clone_determinism_checks": clone_checks,
         "fresh_instance_replays": fresh_checks,
+        "sampled_random_walk_calls": walk_calls,
+        "sampled_random_walk_engaged_calls": walk_engaged,
         "plans": plan_rows,
         "observer_counters": stats.0.iter().map(|(k, v)| (k.to_string(), json!(v))).collect::<serde_json::Map<String, Value>>(),
     });
